@@ -484,3 +484,44 @@ def capacity(tier, seed):
         os.remove(trace)
     cache_put("capacity", key, res)
     return res
+
+
+def inductive(tier, seed):
+    """Apalache: the slot-map invariant is inductive with unbounded (symbolic) generations."""
+    key = key_of("inductive", verif_hash(), tier)
+    c = cache_get("inductive", key)
+    if c:
+        c["cached"] = True
+        return c
+    t0 = time.time()
+    cinit = "ConstInit" if tier == "quick" else "ConstInit10"
+    obligations = [("base: Init => IndInv", ["--init=Init", "--inv=IndInv", "--length=0"], "NoError"),
+                   ("step: IndInv /\\ Next => IndInv'", ["--init=IndInit", "--inv=IndInv", "--length=1"], "NoError"),
+                   ("corollaries: IndInv => FreshOnCreate /\\ StaleRejected /\\ FreeCovers", ["--init=IndInit", "--inv=Corollaries", "--length=0"], "NoError"),
+                   ("vacuity guard: a false invariant is refuted by the step", ["--init=IndInit", "--inv=Bogus", "--length=1"], "Error")]
+    def run(i):
+        name, args, want = obligations[i]
+        outdir = os.path.join(BUILD, "apa", "o%d-%d" % (os.getpid(), i))
+        cmd = ["timeout", "3000", "apalache-mc", "check", "--cinit=" + cinit] + args + ["--out-dir=" + outdir, os.path.join(SPEC, "StorageInd.tla")]
+        rc, out, dt = sh(cmd, cwd=os.path.join(BUILD, "apa"), check=False, timeout=3100)
+        shutil.rmtree(outdir, ignore_errors=True)
+        m = re.search(r"The outcome is: (\w+)", out)
+        got = m.group(1) if m else "none"
+        return {"obligation": name, "expected": want, "outcome": got, "ok": got == want, "wall_s": round(dt, 1), "tail": "" if got == want else out[-1200:]}
+    os.makedirs(os.path.join(BUILD, "apa"), exist_ok=True)
+    with ThreadPoolExecutor(max_workers=4) as ex:
+        results = list(ex.map(run, range(len(obligations))))
+    violations = []
+    for r in results:
+        if not r["ok"]:
+            if r["outcome"] in ("NoError", "Error"):
+                violations.append({"tags": ["C01", "C08", "C12"], "what": "inductive obligation failed: %s (outcome %s)" % (r["obligation"], r["outcome"]),
+                                   "at": 0, "event": r, "origin": {"engine": "inductive"}})
+            else:
+                raise ToolError("apalache did not decide %s:\n%s" % (r["obligation"], r["tail"]))
+    res = {"engine": "inductive", "tier": tier, "traces": 0, "max_cap": 6 if tier == "quick" else 10, "generations": "unbounded (symbolic Int)",
+           "obligations": len(obligations), "discharged": sum(1 for r in results if r["ok"]), "results": [{k: v for k, v in r.items() if k != "tail"} for r in results],
+           "tlc_states": 0, "tlc_transitions": 0, "violations": violations,
+           "samples": [{"obligation": results[1]["obligation"], "outcome": results[1]["outcome"]}], "wall_s": round(time.time() - t0, 1), "cached": False}
+    cache_put("inductive", key, res)
+    return res
